@@ -354,9 +354,11 @@ void read_data(AnyStream& f, std::vector<TMem>& content, bool swap_bytes) {
   }
 }
 
+// The header is kept (and written) in the byte order of the file it was
+// read from, so the data must be written in the same byte order.
 template<typename TFile, typename TMem>
-void write_data(const std::vector<TMem>& content, FILE* f) {
-  if (std::is_same<TMem, TFile>::value) {
+void write_data(const std::vector<TMem>& content, FILE* f, bool swap_bytes) {
+  if (std::is_same<TMem, TFile>::value && !(swap_bytes && sizeof(TFile) > 1)) {
     size_t len = content.size();
     if (std::fwrite(content.data(), sizeof(TFile), len, f) != len)
       sys_fail("Failed to write data to the map file");
@@ -367,6 +369,9 @@ void write_data(const std::vector<TMem>& content, FILE* f) {
       size_t len = std::min(chunk_size, content.size() - i);
       for (size_t j = 0; j < len; ++j)
         work[j] = static_cast<TFile>(content[i+j]);
+      if (swap_bytes && sizeof(TFile) > 1)
+        for (size_t j = 0; j < len; ++j)
+          swap_value_bytes(&work[j]);
       if (std::fwrite(work.data(), sizeof(TFile), len, f) != len)
         sys_fail("Failed to write data to the map file");
     }
@@ -488,13 +493,13 @@ void Ccp4<T>::write_ccp4_map(const std::string& path) const {
   std::fwrite(ccp4_header.data(), 4, ccp4_header.size(), f.get());
   int mode = header_i32(4);
   if (mode == 0)
-    impl::write_data<std::int8_t>(grid.data, f.get());
+    impl::write_data<std::int8_t>(grid.data, f.get(), !same_byte_order);
   else if (mode == 1)
-    impl::write_data<std::int16_t>(grid.data, f.get());
+    impl::write_data<std::int16_t>(grid.data, f.get(), !same_byte_order);
   else if (mode == 2)
-    impl::write_data<float>(grid.data, f.get());
+    impl::write_data<float>(grid.data, f.get(), !same_byte_order);
   else if (mode == 6)
-    impl::write_data<std::uint16_t>(grid.data, f.get());
+    impl::write_data<std::uint16_t>(grid.data, f.get(), !same_byte_order);
 }
 
 GEMMI_DLL Ccp4<float> read_ccp4_map(const std::string& path, bool setup);
